@@ -2,15 +2,15 @@ CONSTANTS
   Types <- T1
   TypeSeq <- T1s
   Owners <- O2
-  SubOpts <- OptWeak
+  SubOpts <- OptWeak3
   AutoOpts <- AutoTwo
-  RVs = {"none", "remove"}
+  RVs = {"none"}
   UnsubModes = {"handler", "pair"}
   Forms = {"inst"}
   NoErrs = {FALSE}
   RaiseTypes <- TA
   SubTypes <- TA
-  MaxSubs = 3
+  MaxSubs = 2
   MaxRaises = 1
   MaxUnsubs = 1
   MaxDepth = 2
@@ -32,4 +32,5 @@ PROPERTY HaltStops
 PROPERTY NoErrorsContained
 PROPERTY RejectedUnchanged
 PROPERTY NeverAgain
+ACTION_CONSTRAINT ExportT
 CHECK_DEADLOCK FALSE
